@@ -9,6 +9,7 @@ CONSTANTS
   KF_StaleFlags = FALSE
   KF_NoReloadMutex = TRUE
   DumpFile = ""
+  KF_PortFreedAfterDone = FALSE
   KF_MidEstablishLeak = FALSE
 INVARIANTS
   NoDuplicateBackend
